@@ -566,6 +566,7 @@ class Forcing(BaseForce):
         nc = Dataset(self.file_idx[time_step])
         nc.set_auto_maskandscale(False)
         self._nc = nc
+        self._open_file = self.file_idx[time_step]
 
         # Get scaling info per variable
         self.scaled = dict()
@@ -592,7 +593,7 @@ class Forcing(BaseForce):
         if self._first_read:
             self.open_forcing_file(time_step)  # Open first file
             self._first_read = False
-        elif self.frame_idx[time_step] == 0:  # Open next file
+        elif self.file_idx[time_step] != self._open_file:  # Open next file
             self._nc.close()
             self.open_forcing_file(time_step)
 
@@ -618,6 +619,9 @@ class Forcing(BaseForce):
 
     def _read_field(self, name: str, n: int) -> Field:
         """Read a 3D field"""
+        if self.file_idx[n] != self._open_file:
+            self._nc.close()
+            self.open_forcing_file(n)
         frame = self.frame_idx[n]
         F0: Field = self._nc.variables[name][frame, :, self.grid.J, self.grid.I]
         if self.scaled[name]:
